@@ -13,10 +13,13 @@ it spends and the fee that follows.  At the end: keep_synchronized is still runn
 next quiet refreshes the C08 oracle holds for the daemon's final state, and every script hash
 whose unconfirmed transactions differ from the view before the races has been reported as
 touched by some refresh in between.
+Part B (vf/slicedsys.py): a whole refresh is served in the middle of a worker job of the block
+processor - at EVERY slice point of every advance_block / backup_block / flush_dbs job of 7 of the
+scenarios; same oracles.
 '''
 import itertools
 
-from vf import chain, common, explore, mpuniverse, reorgrun, system
+from vf import chain, common, explore, mpuniverse, reorgrun, slicedsys, system
 from vf.common import farm, finish
 
 PROP = 'C09'
@@ -180,6 +183,29 @@ def run_case(case, res):
         res.distinct('final_states', (evname, s.x_final_names))
         return failures
 
+    if case.get('sliced'):
+        # Part B: a whole refresh served in the middle of a worker job of the block processor
+        def inject(s):
+            if not s.loop.fire_polling_timer():
+                raise common.Broken('no refresh timer to fire in the middle of the job')
+
+        def after(s):
+            if not bad_points:
+                bad = mpuniverse.check_internal(s, u)
+                if bad:
+                    bad_points.append((bad[0], -1))
+
+        def make():
+            s = make_system(s0)
+            s.daemon.immediate = True
+            return s
+        found = slicedsys.enumerate_points(make, script_of, inject, judge, res,
+                                           f'{case["pair"]}/{evname}', closing_ticks=10,
+                                           only_k=case.get('k'), after=after)
+        for k, key, detail in found:
+            res.violation(key + ':refresh-served-mid-job', dict(case, k=k), detail)
+        res.distinct('sliced_scenarios', (case['pair'], evname))
+        return
     explore.explore(lambda: make_system(s0), script_of, case['bound'], judge, res,
                     dict(case, scenario=f'{case["pair"]}/{evname}'),
                     only=case.get('choices'), point_hook=point_hook, closing_ticks=10,
@@ -204,6 +230,8 @@ def cases_for(tier):
             n = 2 if b == 1 else 8
             for i in range(n):
                 cases.append(dict(pair=pair, event=ev, bound=b, shard=[i, n]))
+    for pair, ev in ((0, 3), (0, 4), (0, 5), (0, 6), (0, 8), (1, 4), (2, 9)):
+        cases.append(dict(pair=pair, event=ev, sliced=True))
     return cases
 
 
@@ -213,10 +241,12 @@ def run(tier, seed, started):
     res = farm(run_case, cases, seed=seed, chunk=1)
     c = res.counters
     kinds = res.sets.get('deviation_kinds', set())
-    if c.get('executions', 0) < 500 or not {'next', 'hold', 'release'} <= kinds:
+    if c.get('executions', 0) < 500 or not {'next', 'hold', 'release'} <= kinds or \
+            c.get('sliced_executions', 0) < 100:
         common.vacuous(PROP, res, f'vacuous C09 run: {c} {kinds}')
     coverage = {
-        'evaluations': c['executions'],
+        'evaluations': c['executions'] + c['sliced_executions'],
+        'sliced_executions(refresh served mid-job)': c['sliced_executions'],
         'distinct_nontrivial': len(res.sets.get('schedules', ())),
         'rule': ('scenarios (S0, S1, X) x every choice vector with total deviation cost <= bound at '
                  'the quiescent points of the explored phase (X or a timer overtaking a pending '
